@@ -3,7 +3,9 @@
 (* requests and responses; no body / Content-Length / chunked (extensions with and without     *)
 (* value, on data chunks and on the last chunk; trailers) / until close; header fields with no *)
 (* whitespace, a space, two spaces or a tab after the colon; bodies containing CR LF; bytes    *)
-(* after the message; two messages back to back on one connection.                             *)
+(* after the message; two messages back to back on one connection; responses without a body   *)
+(* by status (1xx, 204, 304) or request method (HEAD) with and without Content-Length; an      *)
+(* interim 100 Continue in front of a response.                                                *)
 (* Every split of every scenario into at most MaxPieces pieces is a behaviour.                 *)
 EXTENDS HttpParse, SequencesExt, Json, IOUtils
 
@@ -51,17 +53,39 @@ RespMsgs == {Resp(Http11, hs, <<SP>>, Fixed(<<"x">>)) : hs \in Heads}
 CloseMsgs == {Resp(Http11, <<>>, <<>>, UntilClose(d)) : d \in {<<"x", "y">>, <<"x", CR, LF, "0">>}}
               \cup (IF Level = 1 THEN {} ELSE {Resp(Http10, <<H(<<"A">>, <<SP>>, <<"b">>)>>, <<>>, UntilClose(<<"x">>))})
 
-\* a scenario: messages back to back, then some bytes of whatever comes next
-Scenarios == {[msgs |-> <<m>>, extra |-> x] : m \in ReqMsgs \cup RespMsgs, x \in Extras}
-              \cup {[msgs |-> <<m>>, extra |-> <<>>] : m \in CloseMsgs}
-              \cup {[msgs |-> <<Req(Get, Http11, <<>>, <<>>, None), Req(Post, Http11, <<>>, <<>>, Fixed(<<"x">>))>>, extra |-> <<>>],
-                    [msgs |-> <<Resp(Http11, <<>>, <<>>, Chunks(<< C(<<"x">>, <<>>) >>, <<>>, <<>>)), Resp(Http11, <<>>, <<>>, Fixed(<<"y">>))>>, extra |-> <<>>]}
+\* responses without a body by status or request method, with and without a Content-Length; a 1xx sample; each is
+\* followed by an ordinary response on the same connection, so that what they leave behind is observed
+Bodiless(st, rs, n) == [kind |-> "resp", start |-> <<Http11, st, rs>>, heads |-> <<>>, fows |-> <<SP>>, body |-> [k |-> "bodiless", clen |-> n]]
+NoCont(n) == Bodiless(<<"2", "0", "4">>, <<"N", "o", SP, "C">>, n)
+NotMod(n) == Bodiless(<<"3", "0", "4">>, <<"N", "M">>, n)
+Proc(n) == Bodiless(<<"1", "0", "2">>, <<"P">>, n)
+HeadOk(n) == Bodiless(<<"2", "0", "0">>, <<"O", "K">>, n)
+Next1 == Resp(Http11, <<>>, <<>>, Fixed(<<"y">>))
+Continue100(hs) == [kind |-> "resp", start |-> <<Http11, <<"1", "0", "0">>, <<"C", "o", "n", "t", "i", "n", "u", "e">> >>,
+                    heads |-> hs, fows |-> <<>>, body |-> [k |-> "bodiless", clen |-> -1]]
+
+\* a scenario: messages back to back (heads[j]: message j answers a HEAD request; pres[j]: an interim 100 Continue
+\* response in front of message j), then some bytes of whatever comes next
+Sc(ms, x) == [msgs |-> ms, extra |-> x, heads |-> [j \in 1..Len(ms) |-> FALSE], pres |-> [j \in 1..Len(ms) |-> <<>>]]
+BodilessScenarios ==
+    {Sc(<<m, Next1>>, <<>>) : m \in {NoCont(-1), NoCont(2), NotMod(0), NotMod(2), Proc(2)}
+                                    \cup (IF Level = 1 THEN {} ELSE {NoCont(0), NotMod(-1), Proc(-1), NotMod(12)})}
+    \cup {[Sc(<<m, Next1>>, <<>>) EXCEPT !.heads = <<TRUE, FALSE>>] : m \in {HeadOk(2), HeadOk(-1)} \cup (IF Level = 1 THEN {} ELSE {HeadOk(0), NotMod(3)})}
+    \cup (IF Level = 1 THEN {} ELSE {[Sc(<<Next1, HeadOk(2)>>, <<"Z">>) EXCEPT !.heads = <<FALSE, TRUE>>]})
+    \cup {[Sc(<<Resp(Http11, <<>>, <<SP>>, Fixed(<<"x">>))>>, <<>>) EXCEPT !.pres = <<Wire(Continue100(<<>>))>>]}
+    \cup (IF Level = 1 THEN {} ELSE {[Sc(<<Next1, Next1>>, <<>>) EXCEPT !.pres = << <<>>, Wire(Continue100(<<H(<<"A">>, <<SP>>, <<"b">>)>>)) >>]})
+Scenarios == {Sc(<<m>>, x) : m \in ReqMsgs \cup RespMsgs, x \in Extras}
+              \cup {Sc(<<m>>, <<>>) : m \in CloseMsgs}
+              \cup {Sc(<<Req(Get, Http11, <<>>, <<>>, None), Req(Post, Http11, <<>>, <<>>, Fixed(<<"x">>))>>, <<>>),
+                    Sc(<<Resp(Http11, <<>>, <<>>, Chunks(<< C(<<"x">>, <<>>) >>, <<>>, <<>>)), Resp(Http11, <<>>, <<>>, Fixed(<<"y">>))>>, <<>>)}
+              \cup BodilessScenarios
 
 \* everything about the scenarios is computed once (TLCEval forces the lazily evaluated functions)
 FamData == TLCEval(LET fam == SetToSeq(Scenarios) IN
     [i \in 1..Len(fam) |->
-        LET ws == [j \in 1..Len(fam[i].msgs) |-> Wire(fam[i].msgs[j])] IN
+        LET ws == [j \in 1..Len(fam[i].msgs) |-> fam[i].pres[j] \o Wire(fam[i].msgs[j])] IN
         [msgs |-> fam[i].msgs,
+         heads |-> fam[i].heads,
          wire |-> Cat(ws) \o fam[i].extra,
          ends |-> [j \in 1..Len(ws) |-> Len(Cat(SubSeq(ws, 1, j)))],   \* offset of the end of the jth message
          kind |-> fam[i].msgs[1].kind,
@@ -71,6 +95,7 @@ FamN == Len(FamData)
 FamWire(i) == FamData[i].wire
 FamKind(i) == FamData[i].kind
 FamMsgs(i) == FamData[i].n
+FamHead(i, j) == FamData[i].heads[j]
 FamMaxLen == Max({Len(FamData[i].wire) : i \in 1..Len(FamData)})
 
 ASSUME \A i \in 1..Len(Fam) : \A j \in 1..Len(Fam[i].msgs) : UniqueNames(Fam[i].msgs[j])
@@ -84,6 +109,6 @@ DoneRight == p.phase = "done" => /\ Result(p) = Content(Cur)
 DoneIffComplete == ~fresh => ((p.phase = "done") <=> (sent >= Fam[sc].ends[nth] /\ (Cur.body.k = "close" => closed)))
 
 (* ---- the scenarios' bytes for the harness ---- *)
-Table == [i \in 1..Len(Fam) |-> [wire |-> Fam[i].wire, kind |-> Fam[i].kind, n |-> Fam[i].n, ends |-> Fam[i].ends]]
+Table == [i \in 1..Len(Fam) |-> [wire |-> Fam[i].wire, kind |-> Fam[i].kind, n |-> Fam[i].n, ends |-> Fam[i].ends, heads |-> Fam[i].heads]]
 ASSUME JsonSerialize(IOEnv.TABLE_OUT, Table)
 =============================================================================
